@@ -79,6 +79,23 @@ CHECKS.update({
    note="Expected Display/Debug/JSON texts are rebuilt from the tree by the harness; for an empty window only the empty pairs list of the JSON is judged.",
    design_ref="§3 C04"),
 })
+CHECKS.update({
+ "C07": dict(level="exploration", engine="front-explorer",
+   technique="bounded exhaustive enumeration of abstract rule sets x concrete spellings (deviation-bounded) read back through the real reader",
+   text="Abstract grammars (every leaf kind under every operator and modifier; all trees up to size 5/6 over two leaves with both association shapes; two-rule grammars) are printed with only the precedence-required parentheses and respelled with every single deviation (each gap x 7 spacing/comment fillers, all gaps at once, doc comments, redundant parentheses per node, leading | per expression, each literal character in three escape forms, PEEK[..j]); thorough adds pairs of deviations. parser::parse + consume without the validator (hook H4) must return exactly the abstract rules.",
+   note="\\xNN = U+00NN for all NN; default and grammar-extras builds.",
+   design_ref="§3 C07"),
+ "C09": dict(level="exploration", engine="front-explorer",
+   technique="bounded exhaustive enumeration of fragment sequences, of all prefixes and single-lexeme edits of the repository's real grammars, and nesting sweeps, in watchdog-supervised worker processes",
+   text="Every text of the corpus (70-fragment alphabet, k <= 3/4; body fragments k <= 3/5 in two rule frames; every prefix and every lexeme deletion/duplication/substitution of every real grammar; nesting and length sweeps to 256/512) must make parse_and_optimize and docs::consume return without panic, abort or hang, with every error located inside the text on character boundaries and renderable (also after renamed_rules). Two recorded findings (stack overflow at nesting depth 4096; the repository's fuzzsample2.grammar does not return within 5 s) are exercised by directed witnesses in child processes.",
+   note="Repetition counts bounded as the property allows; time is judged against a 20 s watchdog.",
+   design_ref="§3 C09"),
+ "C14": dict(level="translation_validation", engine="front-explorer",
+   technique="three-way differential execution of the checked-in bootstrapped parser, the VM on grammar.pest and a freshly derived parser, on an exhaustive bounded text corpus x every rule of the meta grammar",
+   text="For every (rule, text) program: same token tree, or same error position and same expected/unexpected name sets, across grammar.rs, Vm(parse_and_optimize(grammar.pest)) and a parser derived from grammar.pest at harness build time. Texts: C09's fragment sequences, all real grammars with prefixes, and every 1-3-lexeme window of them against all ~65 rules.",
+   note="Rule-name tables are generated at build time from grammar.rs and grammar.pest; differing rule sets are reported.",
+   design_ref="§3 C14"),
+})
 PENDING = {}
 
 checks = []
@@ -112,6 +129,7 @@ m = {
    {"name": "history-bfs", "path": "/verif/harness/c11", "serves_properties": ["C11"], "kind_free_text": "explicit-state breadth-first search over operation histories of the real object, replay-rebuilt, lock-step reference model"},
    {"name": "parser-state-mc", "path": "/verif/harness/c03", "serves_properties": ["C03"], "kind_free_text": "program enumerator: ParserState call trees as data, one driver onto the real methods, one onto the operational model S_op; complete-state comparison through hook H1; built with and without memchr"},
    {"name": "pairs-views-mc", "path": "/verif/harness/c04", "serves_properties": ["C04"], "kind_free_text": "forest x span x tag enumerator through PairsBuilder plus parse trees from the sdoc corpus; all iterator interleavings on every view against a plain tree"},
+   {"name": "front-explorer", "path": "/verif/harness/front", "serves_properties": ["C07", "C09", "C14"], "kind_free_text": "grammar front-end explorer: printer/respeller + reader round trip (C07), totality sweep in supervised worker processes (C09), three-way differential of the bootstrapped parser (C14); built twice (default, grammar-extras)"},
    {"name": "text-enumerator", "path": "/verif/harness/c10", "serves_properties": ["C10"], "kind_free_text": "complete enumeration of short strings x offsets x offset pairs on the real Position/Span/LineIndex/Error code against direct references"},
    {"name": "pratt-enumerator", "path": "/verif/harness/c13", "serves_properties": ["C13"], "kind_free_text": "exhaustive operator tables x token sequences on the real PrattParser/ConstPrattParser/PrecClimber against a shunting-yard reference"},
    {"name": "unicode-enumerator", "path": "/verif/harness/c16", "serves_properties": ["C16"], "kind_free_text": "complete enumeration of scalar values x property names x access paths (function, by_name, VM, derived parser)"},
